@@ -404,9 +404,13 @@ func (c *Ctx) c01MetablockBinding(R string) {
 		found = true
 		// receiver from getSignerVerifierFromKey(key param)
 		kc, ok := isResultOf(cc.Value, call, 0, "in_toto.getSignerVerifierFromKey")
-		c.check(ok && resolve(kc.Common().Args[0], kc) == ssa.Value(vs.Params[1]), R, fn, "verifier", call.Pos(), "verifier built from the key parameter", "verifier is not getSignerVerifierFromKey(key): "+org(cc.Value))
+		okSV := ok && resolve(kc.Common().Args[0], kc) == ssa.Value(vs.Params[1])
+		if !okSV && org(cc.Value) == "in_toto.getSignerVerifierFromKey(p1)#0" {
+			okSV = true // handed back unchanged by a transparent helper that was given the key parameter
+		}
+		c.check(okSV, R, fn, "verifier", call.Pos(), "verifier built from the key parameter", "verifier is not getSignerVerifierFromKey(key): "+org(cc.Value))
 		dc, ok := isResultOf(cc.Args[1], call, 0, "(*in_toto.Metablock).GetSignableRepresentation")
-		c.check(ok && dc.Common().Args[0] == ssa.Value(vs.Params[0]), R, fn, "verified bytes", call.Pos(), "data = receiver.GetSignableRepresentation()", "verified bytes are "+org(cc.Args[1])+", not the receiver's signable representation")
+		c.check((ok && dc.Common().Args[0] == ssa.Value(vs.Params[0])) || org(cc.Args[1]) == "(*in_toto.Metablock).GetSignableRepresentation(p0)#0", R, fn, "verified bytes", call.Pos(), "data = receiver.GetSignableRepresentation()", "verified bytes are "+org(cc.Args[1])+", not the receiver's signable representation")
 		sc, ok := isResultOf(cc.Args[2], call, 0, "encoding/hex.DecodeString")
 		sigOK := false
 		detail := org(cc.Args[2])
